@@ -7,6 +7,7 @@ pub mod c04;
 pub mod c05;
 pub mod c09;
 pub mod c10;
+pub mod c11;
 pub mod c13;
 pub mod history;
 
@@ -45,6 +46,7 @@ pub fn dispatch(prop: &str, tier: Tier, seed: u64, only: Option<usize>, args: &[
         "C05" => c05::run(&ctx),
         "C09" => c09::run(&ctx),
         "C10" => c10::run(&ctx),
+        "C11" => c11::run(&ctx),
         "C13" => c13::run(&ctx),
         _ => {
             eprintln!("unknown property {prop}");
